@@ -262,7 +262,24 @@ example (f : Array (Array ℂ)) (k l : Nat) (hk : k < 5) (hl : l < 9) :
   czt2_eq_phase_mul_spec sqrtNrm expKernel_isChar expKernel_isFaithful 8 6 5 9 12 14 1.7 2.3 1.5 (-2.25) f k l
     (by omega) (by omega) hk hl (by omega) (by omega)
 
-/-- the pinned lag offset `(N−M)//2` differs from `N//2 − M//2` exactly for even → odd (witness `8 → 9`) -/
+/-! ## the failure sets of the two index/constant defects of the pinned tree, characterised exactly -/
+
+/-- the pinned lag offset `(N−M)//2` equals the correct `N//2 − M//2` iff NOT (input length even and output length odd):
+`czt2` of the pinned tree was off by one output sample exactly for even → odd (e.g. `8 → 9`) -/
+theorem pinned_lag_offset_iff (n M : Int) : (n - M) / 2 = n / 2 - M / 2 ↔ ¬ (n % 2 = 0 ∧ M % 2 = 1) := by omega
+
+/-- the swapped chirp constants of the pinned tree (`alphax` for rows) coincide with the right ones iff `m·Qy = n·Qx`
+(square input with a scalar `Q`, or an accidental match) -/
+theorem pinned_alpha_swap_iff (m n : Nat) (Qy Qx : R) (hm : (m : R) * Qy ≠ 0) (hn : (n : R) * Qx ≠ 0) :
+    alphaOf n Qx = alphaOf m Qy ↔ (m : R) * Qy = (n : R) * Qx := by
+  rw [alphaOf_eq, alphaOf_eq]
+  constructor
+  · intro h
+    have h2 := congrArg (fun x => x⁻¹) h
+    simp only [one_div, inv_inv] at h2
+    exact h2.symm
+  · intro h; rw [h]
+
 example : ((8 : Int) - 9) / 2 ≠ (8 : Int) / 2 - 9 / 2 := by decide
 
 end C01
